@@ -45,7 +45,8 @@ def _contig_len(draw, t, scale):
     return draw(st.integers(1, scale * T))
 
 
-NEUTRAL_SCAFFOLD = ["scaffold_{}", "ctg{}", "s{}", "Contig{}", "x.{}", "sc-{}"]
+# none of these matches the haplotype pattern <word>_<anything>_<digits>; the last three are just outside it
+NEUTRAL_SCAFFOLD = ["scaffold_{}", "ctg{}", "s{}", "Contig{}", "x.{}", "sc-{}", "HiC_scaffold_{}_RagTag", "ctg_12_{}_pilon", "a_b_{}x"]
 HAP_NAMES = ["hap1", "hap2", "Hap1", "HAP2", "mat", "pat"]
 
 
@@ -64,6 +65,7 @@ def input_assembly(
     min_scaffolds=1,
     gap_skip=1,  # a gap separates two contigs with probability (5-gap_skip)/5
     texel_sized_gaps=False,  # gaps of about two texels (pieces that cover mostly gap)
+    odd_gap_types=False,  # gap types that differ from the usual ones only in letter case
     double_gaps=False,  # sometimes two gap rows between two contigs (e.g. a scaffold gap next to a centromere gap)
     terminal_gaps=False,  # FASTA-derived class with terminal N runs: scaffolds may start / end with a gap row (C01, C06 only)
 ):
@@ -102,6 +104,8 @@ def input_assembly(
                     else:
                         glen = draw(st.sampled_from([1, 10, 100, 200, 200, 200, 2 * T + 1]))
                     gtype = "scaffold" if shape == "fasta" else draw(st.sampled_from(["scaffold", "scaffold", "scaffold", "contig"]))
+                    if odd_gap_types and shape != "fasta" and draw(st.integers(0, 5)) == 0:
+                        gtype = draw(st.sampled_from(["Scaffold", "SCAFFOLD", "Contig"]))
                     rows.append(["G", glen, gtype])
                     if shape == "fasta":
                         pos += glen
@@ -432,7 +436,7 @@ def fasta_bytes(plain) -> bytes:
 # Consistent taggings of PretextView-model maps (C09, C10, C16, C17)
 
 NAME_TAGS = ["X", "Y", "Z", "W", "U", "V", "B1", "B2", "X1", "I", "II", "III", "IV", "I_II", "2RL"]
-PREFIXES = ["SUPER_", "SUPER_", "CHR", "chr_", "LG"]
+PREFIXES = ["SUPER_", "SUPER_", "SUPER_", "CHR", "chr_", "LG", "Scaffold_", "S"]
 
 
 def _put_scaffold_tag(draw, frag_rows, tag):
